@@ -514,7 +514,7 @@ def jobs(tier):
     for which in ('beat.f_measure', 'onset.f_measure'):
         for size in ([(0, 1), (1, 1), (2, 2), (3, 2)] if q else [(0, 1), (1, 1), (2, 2), (3, 2), (3, 3), (4, 3)]):
             js.append(job_event_f(which, size))
-    for size, trim in ([((1, 1), False), ((2, 1), False), ((2, 2), True)] if q else [((1, 1), False), ((2, 1), False), ((2, 2), False), ((2, 2), True), ((3, 2), True), ((3, 3), False)]):
+    for size, trim in ([((1, 1), False), ((2, 1), False), ((2, 2), True)] if q else [((1, 1), False), ((2, 1), False), ((1, 2), False), ((2, 2), False), ((2, 2), True), ((3, 2), True)]):
         js.append(job_detection(size, trim))
     for size in ([(1, 1), (2, 1)] if q else [(1, 1), (2, 1), (2, 2), (3, 2)]):
         js.append(job_deviation(size))
